@@ -282,6 +282,20 @@ fn main() {
                 if let Some(n) = s(item, "rename_fn") {
                     sig.ident = Ident::new(&n, Span::call_site());
                 }
+                if let Some(pt) = item.get("param_types").and_then(|x| x.as_object()) {
+                    // R9': parameters of an `impl Trait` type get the prelude type named by the unit
+                    for a in sig.inputs.iter_mut() {
+                        if let FnArg::Typed(t) = a {
+                            if let Pat::Ident(pi) = &*t.pat {
+                                if let Some(nt) = pt.get(&pi.ident.to_string()).and_then(|x| x.as_str()) {
+                                    let ty: Type = syn::parse_str(nt).unwrap_or_else(|e| fail("config", format!("{}: {}", name, e)));
+                                    *t.ty = ty;
+                                    fired.push(format!("R9-param-type-{}", pi.ident));
+                                }
+                            }
+                        }
+                    }
+                }
                 if let Some(r) = s(item, "ret_override") {
                     // R9: `impl Iterator` return types become the prelude iterator type named by the unit
                     let ty: Type = syn::parse_str(&r).unwrap_or_else(|e| fail("config", format!("{}: {}", name, e)));
@@ -770,7 +784,16 @@ fn main() {
                     ),
                 };
                 let span = full_span(&clo);
-                let text = rules::hoist_closure(clo, item, &mut fired, &name);
+                let mut text = rules::hoist_closure(clo, item, &mut fired, &name);
+                if item.get("contract_only").and_then(|x| x.as_bool()).unwrap_or(false) {
+                    // modular use of a hoisted closure: only its signature; the body is verified in the unit that owns it
+                    let mut f: ItemFn = syn::parse_str(&text).unwrap_or_else(|e| fail("rule-refused", format!("{}: hoisted closure is not a fn item: {}", name, e)));
+                    let fname = f.sig.ident.clone();
+                    f.block = Box::new(parse_quote! { { vx_fn_head!(#fname); vx_contract_only!(); vx_fn_end!(#fname); unimplemented!() } });
+                    text = f.to_token_stream().to_string();
+                    covered_override = Some(vec![]);
+                    fired.push("contract-only (body verified in its own unit)".into());
+                }
                 (rustfmt(&text), span)
             }
             "struct" | "enum" => {
